@@ -398,6 +398,12 @@ def do_edit(w, op):
         return "skip"
     if any(set(G.graph[p].backedges) & set(S) for p in P):
         return "skip"
+    if any(is_region(G.graph[p]) for p in P) and hier.state_invariants(w.g, want=("C04",)):
+        # a region predecessor in a hierarchy that is not self-consistent (a stage
+        # was applied to a freely edited, possibly no longer closed graph): not a
+        # valid input for an edit, nothing to conclude about C14
+        w.probe_hit("edit-skipped:inconsistent-hierarchy")
+        return "skip"
     tags = models.shape_of(G, P, S)
     for t in tags:
         w.probe_hit("edit:" + t)
